@@ -85,6 +85,15 @@ Theorem C01_cpp_typed_roundtrip : forall b1 b2 t v rest, (10 <= b1)%nat -> (0 < 
 Proof. exact cpp_typed_roundtrip. Qed.
 Print Assumptions C01_cpp_typed_roundtrip.
 
+(* a whole protocol in generated C++: header, every step (streams copied with any batch capacity) and nothing after -
+   the reader returns the values in order and VerifyFinished succeeds *)
+Theorem C01_cpp_protocol_roundtrip : forall schema steps fuel, N.of_nat (length schema) < 2 ^ 64 ->
+  forallb cstep_typed steps = true -> Forall (fun s => (cstep_items s < fuel)%nat) steps ->
+  arun_c (cpp_read_protocol fuel schema (map cstep_of steps)) (cbytes (cpp_protocol_ops schema steps))
+  = CVal (map cresult_of steps) [].
+Proof. exact cpp_protocol_roundtrip. Qed.
+Print Assumptions C01_cpp_protocol_roundtrip.
+
 (* the buffered Python writer (_binary.py CodedOutputStream) hands the underlying stream exactly the bytes its operations
    denote, for every buffer size >= 10, and the operations generated code uses never raise *)
 Theorem C01_py_writer_refines : forall bufsize ops, (10 <= bufsize)%nat -> Forall (pwop_ok bufsize) ops ->
@@ -115,6 +124,7 @@ Proof.
   split; [|vm_compute; reflexivity].
   repeat (apply Forall_cons; [cbn; try exact I; try split; try lia; try reflexivity|]). apply Forall_nil.
 Qed.
+Print Assumptions C01_py_hyp_sat.
 
 (* The typed layer of the generated Python writers as a program over the coded stream (Model.PyTyped.py_wops: the calls the
    serializer classes of _binary.py make, compared call by call with a spying stream on every run): the bytes those calls
@@ -185,8 +195,10 @@ Print Assumptions C01_doc_conformance_guarded.
 (* ... where the document (varint / zig-zag) and every backend (one raw byte) disagree *)
 Theorem C01_doc_conformance_refuted_uint8 : enc_doc (TPrim PUint8) (VInt 200) <> enc (TPrim PUint8) (VInt 200).
 Proof. exact enc_doc_differs_uint8. Qed.
+Print Assumptions C01_doc_conformance_refuted_uint8.
 Theorem C01_doc_conformance_refuted_int8 : enc_doc (TPrim PInt8) (VInt 1) <> enc (TPrim PInt8) (VInt 1).
 Proof. exact enc_doc_differs_int8. Qed.
+Print Assumptions C01_doc_conformance_refuted_int8.
 
 (* non-vacuity *)
 Example C01_hyp_sat :
@@ -194,9 +206,11 @@ Example C01_hyp_sat :
            [WVal (VSeq [VStr [104; 105]; VSome (VInt (-3))]);
             WItems [[VNone; VCase 1 (VSeq [VInt 300; VInt 0])]; []; [VCase 0 (VBits 1065353216)]]] = true.
 Proof. vm_compute. reflexivity. Qed.
+Print Assumptions C01_hyp_sat.
 
 (* the constants of the model (varint byte budgets, magic bytes, format version, nesting limit, default
    buffer size >= 10) are those of the current sources (Gen/Tables.v is regenerated from /repo on every run) *)
 From YV Require Import Proofs.GenTie.
 Theorem C01_constants_are_the_sources : constants_statement.
 Proof. exact constants_agree. Qed.
+Print Assumptions C01_constants_are_the_sources.
